@@ -7,6 +7,7 @@ unit of fuel per scanner call.  The byte classes it uses are regenerated from ps
 -/
 import PdfVerif.Lemmas.LexerPos
 import PdfVerif.Lemmas.LexerErr
+import PdfVerif.Lemmas.LexCompose
 
 namespace PdfVerif.Props.C14
 open PdfVerif PdfVerif.Lexer PdfVerif.Gen.LexTables
@@ -105,6 +106,45 @@ def mainHitCode (c : UInt8) : Nat :=
 theorem C14_dispatch_tied :
     (∀ c : UInt8, (mainHitCode c == dispatchOf MAIN_DISPATCH c) = true) ∧ kwTrue = KW_TRUE ∧ kwFalse = KW_FALSE :=
   ⟨forall_byte _ (by decide +kernel), by decide, by decide⟩
+
+/-! ### compositionality: token VALUES of a concatenation (the C05 contents-splitting clause relies on it) -/
+
+/-- Once the lexer is back in the main scanner after `pre` (e.g. `pre` ends with a delimiter-closed token
+    or with white space), the rest is tokenised as a fresh input: same token values, positions shifted
+    by `|pre|`.  All byte strings, no size bound. -/
+theorem C14_compositional_main (pre b : Bytes) (hm : modeAfter pre = .main) :
+    specLex (pre ++ b) = specLex pre ++ shiftToks pre.length (specLex b) :=
+  specLex_append_main pre b hm
+
+/-- Compositionality with a white-space separator: when `a` ends in a complete token (the lexer is not
+    inside a string, a hexadecimal string or a comment and not behind a lone `<`: `Complete`), then for
+    every non-empty run `ws` of white-space bytes (every byte of the regenerated SPC table: NUL HT LF VT
+    FF CR SP) and every `b`, the tokens of `a ++ ws ++ b` are exactly the tokens of `a` followed by the
+    tokens of `b`, shifted by `|a| + |ws|`. -/
+theorem C14_compositional (a ws b : Bytes) (hc : Complete (modeAfter a) = true)
+    (hne : ws ≠ []) (hws : ∀ c ∈ ws, isSPC c = true) :
+    specLex (a ++ ws ++ b) = concatLex a ws b :=
+  specLex_append_ws a ws b hc hne hws
+
+/-- The same for the buffered tokenizer at every buffer size. -/
+theorem C14_compositional_run (n : Nat) (hn : 1 ≤ n) (a ws b : Bytes) (hc : Complete (modeAfter a) = true)
+    (hne : ws ≠ []) (hws : ∀ c ∈ ws, isSPC c = true) :
+    run n (a ++ ws ++ b) = some (concatLex a ws b) := by
+  rw [C14_run_eq_spec n hn, C14_compositional a ws b hc hne hws]
+
+/-- The hypothesis cannot be dropped: inside a literal string the separator and what follows belong to
+    the string. -/
+theorem C14_compositional_open_cex :
+    Complete (modeAfter [40, 97]) = false ∧ specLex ([40, 97] ++ [32] ++ [41, 49]) ≠ concatLex [40, 97] [32] [41, 49] := by
+  decide +kernel
+
+/-- Non-vacuity: `/A#4` (pending name escape) + NUL CR + `(x)12`; `12` + LF + `0 R`. -/
+example : Complete (modeAfter [47, 65, 35, 52]) = true ∧ (∀ c ∈ ([0, 13] : Bytes), isSPC c = true) ∧
+    specLex ([47, 65, 35, 52] ++ [0, 13] ++ [40, 120, 41, 49, 50])
+      = [(0, .lit [65, 4]), (6, .str [120]), (9, .int 12)] := by decide +kernel
+example : Complete (modeAfter [49, 50]) = true ∧ concatLex [49, 50] [10] [48, 32, 82]
+    = [(0, .int 12), (3, .int 0), (5, .kwd [82])] := by decide +kernel
+example : modeAfter [60, 52, 49, 62] = .wclose ∧ modeAfter [40, 97, 41] = .main := by decide +kernel
 
 /-- Non-vacuity: a literal string with a backslash-CR-LF continuation split by the buffer boundary,
     an over-long octal escape and a `#xx` name, at buffer sizes 1, 3 and 4096. -/
